@@ -60,6 +60,11 @@ class ShapeArr:
             r = r * d
         return r
 
+    def symbolic_len(self):
+        if not self.shape:
+            raise TypeError("len() of unsized object")
+        return self.shape[0]
+
     def astype(self, dt, casting="unsafe", **k):
         if not np.can_cast(self.dtype, dt, casting=casting):
             raise TypeError(f"Cannot cast array data from {self.dtype!r} to {np.dtype(dt)!r} according to the rule '{casting}'")
@@ -130,7 +135,9 @@ class Ctor(Unit):
 
 def _time_vals():
     return {"none": None, "time": "SYM", "string": "2021-03-04T05:06:07", "array-time": Time(["2021-03-04T05:06:07", "2021-03-04T05:06:08"]),
-            "number": 59867.24, "quantity": 3 * u.s}
+            "number": 59867.24, "quantity": 3 * u.s,
+            # invalid values that are falsy (a truthiness test instead of `is not None` would take them for "no start time")
+            "zero": 0, "zero-float": 0.0, "false": False, "empty-string": "", "empty-time": Time([], format="mjd")}
 
 
 class MetaArg(Unit):
@@ -377,7 +384,7 @@ def units(tier):
     for v in ("none", "dict", "pairs", "int", "string", "list"):
         us.append(MetaArg(pb.Signal, "meta", v, assign=(v in ("dict", "int"))))
     for v in _time_vals():
-        us.append(MetaArg(pb.IntensitySignal, "start_time", v, assign=(v in ("time", "number"))))
+        us.append(MetaArg(pb.IntensitySignal, "start_time", v, assign=(v in ("time", "number", "zero", "empty-string"))))
     for n in C14.OPS:
         us.append(OpInvariant(n))
     for kind in ("signal", "baseband", "dual", "stokes"):
